@@ -547,6 +547,24 @@ def run(chk):
         return True, "", ev
     chk.ob("C16.R2:hole-formatter-used", "every writer renders a formatted hole through the formatter it is given", hole_formatter_used)
 
+    def hole_values_flag_neutral():
+        """`for each hole, the first-wins property value ... to any writer, and identically`: a rendering written through a `fmt::Formatter` is the same
+        text as one written into a String, whatever width / precision / fill the caller's format string carries (`format!("{:>8}", tpl.render(p))`).
+        Structural part: the `fmt::Formatter` writer does not hand its own formatter - and with it the caller's flags - to a hole value's Display impl;
+        an unformatted hole value is written through `write_fmt` (whose placeholder carries fresh, default flags) or `write_str`."""
+        bs = [b for k, b in P.bodies.items() if k.endswith("::write_hole_value") and "Formatter" in (b.self_ty or "") and not b.is_closure]
+        if not bs:
+            raise mir.AnchorMissing("write_hole_value of the fmt::Formatter writer")
+        for b in bs:
+            for c in b.calls(normal_only=True):
+                if c.callee.get("name") == "fmt" and (c.callee.get("trait") or "").startswith("core::fmt::") and len(c.args) >= 2 \
+                        and mir.o_is_param(b.origin(c.args[1], through_calls=("deref_mut",)), idx=1):
+                    return False, ("%s hands the caller's formatter to the value's %s at %s: width, fill and precision of the *outer* format string are applied to every "
+                                   "hole value (`format!(\"{:>6}\", tpl.render(props))` pads each hole), so the text differs from the same rendering written into a String"
+                                   % (b.key, c.callee.get("trait"), c.loc)), [], c.loc
+        return True, "", [b.span for b in bs]
+    chk.ob("C16.R2:hole-values-flag-neutral", "a hole value written through a fmt::Formatter does not inherit the caller's format flags", hole_values_flag_neutral)
+
     def part_write():
         b = P.body(T + "Part::<'a>::write")
         calls = {n: [c for c in b.calls(normal_only=True) if c.callee.get("trait") == WRITE and c.callee.get("name") == n]
